@@ -427,6 +427,10 @@ class Random(Relation):
                                                  st.integers(0, 10**9)))}),
             st.fixed_dictionaries({'kind': st.just('from_float'),
                                    'rect': rect}),
+            # a box whose corners are re-assigned after its derived values
+            # were read (padding a box in place), and an edited copy
+            st.fixed_dictionaries({'kind': st.just('edit'), 'a': box, 'b': box,
+                                   'how': st.sampled_from(['assign', 'copy'])}),
             st.fixed_dictionaries({'kind': st.just('invalid'),
                                    'a': box, 'pos': st.integers(0, 3),
                                    'bad': st.sampled_from(
@@ -523,6 +527,24 @@ class Random(Relation):
                                 and a[3] <= ny) or a[0] == a[1] or a[2] == a[3])
         elif kind == 'from_float':
             ctx.nontrivial(check_from_float(ctx, spec['rect'], False))
+        elif kind == 'edit':
+            import copy as _copy
+            a, b = list(spec['a']), list(spec['b'])
+            A = RB(*a)
+            derived = lambda X: (X.shape, X.center, X.extent,      # noqa: E731
+                                 tup(X | X), repr(X))
+            derived(A)
+            T = A if spec['how'] == 'assign' else _copy.copy(A)
+            T.ixmin, T.ixmax, T.iymin, T.iymax = b
+            ctx.check(derived(T) == derived(RB(*b)),
+                      f'edit ({spec["how"]}) | shape/centre/extent do not '
+                      'follow the corners of the box',
+                      lambda: f'{a} -> {b}: {derived(T)[:3]} vs '
+                              f'{derived(RB(*b))[:3]}')
+            if spec['how'] == 'copy':
+                ctx.check(derived(A) == derived(RB(*a)),
+                          'edit (copy) | editing a copy changes the original')
+            ctx.nontrivial(a != b)
         elif kind == 'invalid':
             a = list(spec['a'])
             bad = spec['bad']
